@@ -102,11 +102,21 @@ theorem map_range_getD (dir : List Nat) :
 
 /-- the private stream of `generate()` (code as it is: instance-level cache) reads exactly the
     current contents, whatever the other streams hold -/
+theorem readPaths_private (cap : Nat) (w : World α) (js : List Nat) :
+    readPaths false cap w js = (js.map fun j => w.inodes.getD (w.dir.getD j 0) [], w) := by
+  unfold readPaths
+  simp only [Bool.false_eq_true, ↓reduceIte]
+  rw [(openAll_consistent cap js (consistent_nil w.dir)).1, List.map_map]
+  rfl
+
 theorem readAll_private (cap : Nat) (w : World α) :
     readAll false cap w = (w.cur, w) := by
   unfold readAll
-  simp only [Bool.false_eq_true, ↓reduceIte]
-  rw [(openAll_consistent cap (List.range w.dir.length) (consistent_nil w.dir)).1, map_range_getD]
+  rw [readPaths_private]
+  have h := map_range_getD w.dir
+  unfold World.cur
+  conv => rhs; rw [← h]
+  rw [List.map_map]
   rfl
 
 /-! ### well-formed worlds -/
@@ -261,5 +271,192 @@ theorem map_length_set_kept (cur : List (List α)) (sizes : List Nat)
       exact Option.some.inj hb
     simp [hlt, hb']
   · simp [hij]
+
+/-! ## the metainfo side -/
+
+theorem diskStep_private (cap : Nat) {w : World α} (hw : WF w) (op : Op α) :
+    WF (diskStep cap w op) ∧
+      (diskStep cap w op).cur =
+        (match op with
+          | .replace j b => w.cur.set j b
+          | .rewrite j b => w.cur.set j b
+          | _ => w.cur) := by
+  obtain ⟨h1, h2, _⟩ := step_private (fun _ : List α => ()) 1 cap hw op
+  exact ⟨h1, h2⟩
+
+theorem WF.create {w : World α} (hw : WF w) (bytes : List α) :
+    WF ({ w with inodes := w.inodes ++ [bytes], dir := w.dir ++ [w.inodes.length] } : World α) := by
+  refine ⟨?_, ?_⟩
+  · intro i hi
+    simp only [List.length_append, List.length_singleton]
+    rcases List.mem_append.1 hi with h | h
+    · have := hw.lt i h; omega
+    · simp only [List.mem_singleton] at h; omega
+  · simp only
+    rw [List.nodup_append]
+    refine ⟨hw.nodup, by simp, ?_⟩
+    intro a ha b hb
+    simp only [List.mem_singleton] at hb
+    have := hw.lt a ha
+    omega
+
+theorem cur_create {w : World α} (hw : WF w) (bytes : List α) :
+    ({ w with inodes := w.inodes ++ [bytes], dir := w.dir ++ [w.inodes.length] } : World α).cur =
+      w.cur ++ [bytes] := by
+  unfold World.cur
+  simp only [List.map_append, List.map_cons, List.map_nil]
+  congr 1
+  · apply List.map_congr_left
+    intro i hi
+    have := hw.lt i hi
+    simp [List.getD_eq_getElem?_getD, List.getElem?_append_left this]
+  · simp [List.getD_eq_getElem?_getD]
+
+theorem sizeOnDisk_eq_cur (w : World α) (p : Nat) :
+    sizeOnDisk w p = (w.cur[p]?).map List.length := by
+  unfold sizeOnDisk World.cur
+  rw [List.getElem?_map]
+  cases w.dir[p]? <;> rfl
+
+theorem sum_map_congr {β : Type} (l : List β) (f g : β → Nat) (h : ∀ x ∈ l, f x = g x) :
+    (l.map f).sum = (l.map g).sum := by
+  rw [List.map_congr_left h]
+
+/-! ### `metasOk` -/
+
+theorem metasOk_split (ms : List Meta) (ops : List (MOp α)) :
+    metasOk ms ops = ((ms.all fun m => decide (0 < m.L)) && metasOk [] ops) := by
+  induction ops with
+  | nil => simp [metasOk]
+  | cons op ops ih =>
+    cases op <;> simp only [metasOk, ih] <;> simp [Bool.and_left_comm]
+
+theorem metasOk_pos (ms : List Meta) (ops : List (MOp α)) (h : metasOk ms ops = true) (m : Meta)
+    (hm : m ∈ ms) : 0 < m.L := by
+  rw [metasOk_split, Bool.and_eq_true] at h
+  have := List.all_eq_true.1 h.1 m hm
+  simpa using this
+
+theorem metasOk_set (ms : List Meta) (k : Nat) (m : Meta) (ops : List (MOp α)) (hm : 0 < m.L)
+    (h : metasOk ms ops = true) : metasOk (ms.set k m) ops = true := by
+  rw [metasOk_split, Bool.and_eq_true] at h ⊢
+  refine ⟨?_, h.2⟩
+  rw [List.all_eq_true] at h ⊢
+  intro x hx
+  rcases List.mem_or_eq_of_mem_set hx with hx | hx
+  · exact h.1 x hx
+  · subst hx; simpa using hm
+
+theorem metasOk_append (ms : List Meta) (m : Meta) (ops : List (MOp α)) (hm : 0 < m.L)
+    (h : metasOk ms ops = true) : metasOk (ms ++ [m]) ops = true := by
+  rw [metasOk_split, Bool.and_eq_true] at h ⊢
+  refine ⟨?_, h.2⟩
+  rw [List.all_eq_true] at h ⊢
+  intro x hx
+  rcases List.mem_append.1 hx with hx | hx
+  · exact h.1 x hx
+  · simp only [List.mem_singleton] at hx; subst hx; simpa using hm
+
+/-! ### the Torrent objects of a world -/
+
+/-- the current metainfo of every Torrent object -/
+def infos (ts : List Tor) : List Meta := ts.map Tor.info
+
+theorem infos_setMeta (ts : List Tor) (k : Nat) (m : Meta) :
+    infos (modifyTor ts k fun t => { t with info := m }) = (infos ts).set k m := by
+  unfold infos modifyTor
+  cases hk : ts[k]? with
+  | some t => simp [List.map_set]
+  | none =>
+    have : ts.length ≤ k := by simpa using hk
+    simp only
+    rw [List.set_eq_of_length_le (by simpa using this)]
+
+theorem set_of_getElem? {β : Type} {l : List β} {k : Nat} {x : β} (h : l[k]? = some x) :
+    l.set k x = l := by
+  obtain ⟨hlt, rfl⟩ := List.getElem?_eq_some_iff.1 h
+  exact List.set_getElem_self hlt
+
+theorem tors_get_same (fp : Meta → List Nat) (ts : List Tor) (k : Nat) :
+    (modifyTor ts k fun t => (filesOf false fp t).2) = ts := by
+  unfold modifyTor
+  cases hk : ts[k]? with
+  | some t =>
+    simp only [filesOf, Bool.false_eq_true, ↓reduceIte]
+    exact set_of_getElem? hk
+  | none => rfl
+
+theorem infos_append (ts : List Tor) (m : Meta) : infos (ts ++ [{ info := m }]) = infos ts ++ [m] := by
+  simp [infos]
+
+theorem infos_init (metas : List Meta) : infos (metas.map fun m => ({ info := m } : Tor)) = metas := by
+  simp [infos, List.map_map, Function.comp_def]
+
+theorem infos_getElem? (ts : List Tor) (k : Nat) : (infos ts)[k]? = (ts[k]?).map Tor.info := by
+  simp [infos]
+
+/-! ### a memoising `files` getter whose fingerprint determines the file list -/
+
+/-- every filled memo slot holds the file list of some metainfo with the stored fingerprint -/
+def MemoOk (fp : Meta → List Nat) (t : Tor) : Prop :=
+  ∀ f es, t.memo = some (f, es) → ∃ m' : Meta, f = fp m' ∧ es = m'.files
+
+theorem filesOf_memo {fp : Meta → List Nat} (hfp : ∀ m m' : Meta, fp m = fp m' → m.files = m'.files)
+    {t : Tor} (ht : MemoOk fp t) :
+    (filesOf true fp t).1 = t.info.files ∧ (filesOf true fp t).2.info = t.info ∧
+      MemoOk fp (filesOf true fp t).2 := by
+  unfold filesOf
+  simp only [↓reduceIte]
+  cases hm : t.memo with
+  | none =>
+    refine ⟨rfl, rfl, ?_⟩
+    intro f es h
+    simp only [Option.some.injEq, Prod.mk.injEq] at h
+    exact ⟨t.info, h.1.symm, h.2.symm⟩
+  | some fe =>
+    obtain ⟨f, es⟩ := fe
+    simp only
+    by_cases hf : f = fp t.info
+    · simp only [hf, ↓reduceIte]
+      obtain ⟨m', h1, h2⟩ := ht f es hm
+      refine ⟨?_, by trivial, ht⟩
+      rw [h2]
+      exact (hfp t.info m' (by rw [← h1, hf])).symm
+    · simp only [hf, ↓reduceIte]
+      refine ⟨by trivial, by trivial, ?_⟩
+      intro f' es' h
+      simp only [Option.some.injEq, Prod.mk.injEq] at h
+      exact ⟨t.info, h.1.symm, h.2.symm⟩
+
+theorem genM_memo (fp : Meta → List Nat) (H : List α → δ) (cap : Nat) (w : World α) (t : Tor)
+    (h : (filesOf true fp t).1 = t.info.files) :
+    genM true fp H cap w t =
+      ((genM false fp H cap w t).1, (genM false fp H cap w t).2.1, (filesOf true fp t).2) := by
+  have hf : filesOf false fp t = (t.info.files, t) := by simp [filesOf]
+  unfold genM
+  simp only [h, hf]
+  split
+  · rfl
+  · split <;> rfl
+
+theorem infos_modify_same (ts : List Tor) (k : Nat) (f : Tor → Tor) (hf : ∀ t, (f t).info = t.info) :
+    infos (modifyTor ts k f) = infos ts := by
+  unfold infos modifyTor
+  cases hk : ts[k]? with
+  | none => rfl
+  | some t =>
+    simp only [List.map_set, hf]
+    exact set_of_getElem? (by simp [hk])
+
+theorem mem_modifyTor {ts : List Tor} {k : Nat} {f : Tor → Tor} {x : Tor} (hx : x ∈ modifyTor ts k f) :
+    x ∈ ts ∨ ∃ t ∈ ts, x = f t := by
+  unfold modifyTor at hx
+  cases hk : ts[k]? with
+  | none => simp only [hk] at hx; exact Or.inl hx
+  | some t =>
+    simp only [hk] at hx
+    rcases List.mem_or_eq_of_mem_set hx with h | h
+    · exact Or.inl h
+    · exact Or.inr ⟨t, List.mem_of_getElem? hk, h⟩
 
 end Torf.GenHistory
